@@ -37,12 +37,18 @@ Definition step_model_ok (p p' : list ltable) (s : stepobs) : bool :=
       end
   end.
 
-Fixpoint model_steps (p : list ltable) (steps : list stepobs) : bool :=
+(* the L1 steps are judged while the history is inside the model: a step on which the L0 spec answers OutOfModel
+   (e.g. a merge of same-named columns of different kinds) ends the judgement, as it does for the oracle *)
+Fixpoint model_steps (w : world) (p : list ltable) (steps : list stepobs) : bool :=
   match steps with
   | [] => true
   | s :: r =>
-      let p' := apply_dumps p (so_dumps s) in
-      step_model_ok p p' s && model_steps p' r
+      let '(w', out) := step w (so_op s) in
+      match out with
+      | OutOfModel => true
+      | _ => let p' := apply_dumps p (so_dumps s) in
+             step_model_ok p p' s && model_steps w' p' r
+      end
   end.
 
-Definition hist_model_ok (steps : list stepobs) (final : list ltable) : bool := model_steps [] steps.
+Definition hist_model_ok (steps : list stepobs) (final : list ltable) : bool := model_steps w0 [] steps.
